@@ -13,6 +13,7 @@ import (
 	"path/filepath"
 	"regexp"
 	"sort"
+	"strconv"
 	"strings"
 	"sync"
 	"time"
@@ -159,7 +160,13 @@ func runShard(bin, prop, tier string, seed string, i, n int, wdir string, timeou
 	lf, _ := os.Create(logPath)
 	defer lf.Close()
 	secs := int(timeout.Seconds())
-	cmd := exec.Command("timeout", "-s", "QUIT", "-k", "30", fmt.Sprint(secs), bin, "-test.run", "^TestProp$", "-test.timeout", "0", "-test.v")
+	args := []string{"-s", "QUIT", "-k", "30", fmt.Sprint(secs), bin, "-test.run", "^TestProp$", "-test.timeout", "0", "-test.v"}
+	for _, e := range extraEnv {
+		if e == "VERIF_COVER=1" {
+			args = append(args, "-test.coverprofile="+filepath.Join(wdir, tag+".cover"))
+		}
+	}
+	cmd := exec.Command("timeout", args...)
 	cmd.Dir = wdir
 	cmd.Stdout = lf
 	cmd.Stderr = lf
@@ -200,6 +207,98 @@ func runShard(bin, prop, tier string, seed string, i, n int, wdir string, timeou
 		}
 	}
 	return so
+}
+
+// statementCoverage merges the cover profiles the shard children wrote on exit (a child that died wrote none: the figures are
+// lower bounds) and reports, for the files the property is anchored in, how many statements the workload executed.
+func statementCoverage(wdir, prop string) map[string]any {
+	files, _ := filepath.Glob(filepath.Join(wdir, "*.cover"))
+	if len(files) == 0 {
+		return nil
+	}
+	type blk struct {
+		n   int
+		hit bool
+	}
+	blocks := map[string]*blk{}
+	for _, f := range files {
+		b, err := os.ReadFile(f)
+		if err != nil {
+			continue
+		}
+		for _, l := range strings.Split(string(b), "\n") {
+			if l == "" || strings.HasPrefix(l, "mode:") {
+				continue
+			}
+			fs := strings.Fields(l)
+			if len(fs) != 3 {
+				continue
+			}
+			n, _ := strconv.Atoi(fs[1])
+			cnt, _ := strconv.Atoi(fs[2])
+			bk := blocks[fs[0]]
+			if bk == nil {
+				bk = &blk{n: n}
+				blocks[fs[0]] = bk
+			}
+			if cnt > 0 {
+				bk.hit = true
+			}
+		}
+	}
+	// anchors of the property
+	var anchors []string
+	if pb, err := os.ReadFile(filepath.Join(verifDir, "properties.jsonl")); err == nil {
+		for _, l := range strings.Split(string(pb), "\n") {
+			var p struct {
+				ID      string `json:"id"`
+				Anchors struct {
+					Files []string `json:"files"`
+				} `json:"anchors"`
+			}
+			if json.Unmarshal([]byte(l), &p) == nil && p.ID == prop {
+				anchors = p.Anchors.Files
+			}
+		}
+	}
+	const mod = "github.com/jcmturner/gokrb5/"
+	type fc struct{ hit, total int }
+	per := map[string]*fc{}
+	for k, bk := range blocks {
+		file := k[:strings.LastIndex(k, ":")]
+		rel := strings.TrimPrefix(file, mod)
+		c := per[rel]
+		if c == nil {
+			c = &fc{}
+			per[rel] = c
+		}
+		c.total += bk.n
+		if bk.hit {
+			c.hit += bk.n
+		}
+	}
+	anchored := map[string]string{}
+	ah, at, oh, ot := 0, 0, 0, 0
+	for rel, c := range per {
+		isA := false
+		for _, a := range anchors {
+			if rel == a || strings.HasPrefix(rel, strings.TrimSuffix(a, "/")+"/") {
+				isA = true
+			}
+		}
+		oh, ot = oh+c.hit, ot+c.total
+		if isA {
+			ah, at = ah+c.hit, at+c.total
+			anchored[rel] = fmt.Sprintf("%d/%d statements (%.1f%%)", c.hit, c.total, 100*float64(c.hit)/float64(max(c.total, 1)))
+		}
+	}
+	return map[string]any{
+		"profiles_merged":     len(files),
+		"anchored_files":      anchored,
+		"anchored_total":      fmt.Sprintf("%d/%d statements (%.1f%%)", ah, at, 100*float64(ah)/float64(max(at, 1))),
+		"all_gokrb5_packages": fmt.Sprintf("%d/%d statements (%.1f%%)", oh, ot, 100*float64(oh)/float64(max(ot, 1))),
+		"note":                "statements executed at least once by this run's workload, measured with go test -cover -coverpkg=github.com/jcmturner/gokrb5/v8/...; children that died (and C04's executor processes) write no profile, so the figures are lower bounds",
+	}
 }
 
 var digitsRe = regexp.MustCompile(`(0x[0-9a-fA-F]+|[0-9]+)`)
@@ -337,10 +436,19 @@ func main() {
 		c.shards = 1
 	}
 
-	bin, err := build(prop, c, false)
+	// the thorough tier measures which statements of gokrb5 the workload executed (go test -cover over all gokrb5 packages)
+	cover := tier == "thorough" && replay == "" && os.Getenv("VERIF_NOCOVER") == ""
+	bin, err := build(prop, c, cover)
+	if err != nil && cover {
+		cover = false
+		bin, err = build(prop, c, false)
+	}
 	if err != nil {
 		fmt.Printf("INCONCLUSIVE property=%s reason=%s\n", prop, strings.ReplaceAll(err.Error(), "\n", " | "))
 		os.Exit(2)
+	}
+	if cover {
+		extraEnv = append(extraEnv, "VERIF_COVER=1")
 	}
 
 	// run shards
@@ -531,6 +639,13 @@ func main() {
 	}
 	for k, v := range merged.Extra {
 		cov[k] = v
+	}
+	if cover {
+		if sc := statementCoverage(wdir, prop); sc != nil {
+			cov["statement_coverage"] = sc
+		}
+	} else {
+		cov["statement_coverage"] = "not measured in this tier (the thorough tier builds with -cover)"
 	}
 	verdict := "held"
 	if nviol > 0 {
